@@ -10,6 +10,13 @@ PROPS = {}
 
 # Additional property coverage of rules (each rule is a necessary condition of these properties too):
 EXTRA_PAIRS = [
+    # round 8
+    ("MT2", ["C16"]),          # whether FAT updates are mirrored is decided at mount by BPB_NumFATs alone
+    ("FL1", ["C05"]),          # an entry that is not rewritten at flush leaves its freshly allocated first cluster ownerless
+    ("IX1", ["C09", "C02"]),   # a flush that persists another table slot's entry loses the flushed file's length / first cluster
+    ("PV1", ["C10"]),          # a directory cluster that is not blanked completely exposes stale entries after a power cut
+    ("BC1", ["C10"]), ("BC2", ["C10"]),   # blank_mut must hand out zeroes: make_dir / directory growth rely on it block by block
+    ("SD11", ["C14"]),         # an absorbed driver error lets the conversation go on in a state the card is not in
     ("OR2", ["C01", "C09"]),   # a truncated chain that is not terminated / freed correctly aliases other files' data
     ("FT9", ["C01", "C09"]),
     ("OR4", ["C03", "C01"]),   # recorded length never runs ahead of the data/chain actually written
